@@ -51,14 +51,10 @@ PLAN_TIMEOUT = 240
 
 def gen(rng, tier, index):
     spec = draw_problem_spec(rng, list(FAMILIES), nmax=12)
-    jac_modes = ["callable"] * 6 + ["2-point", "3-point", "cs", None]
+    jac_modes = ["callable"] * 6 + ["2-point", "3-point", None]
     cfg = draw_cfg(rng, jac_modes=jac_modes, allow_scaler=True)
     if cfg["jac"] != "callable" and spec["box"] == "degenerate":
         spec["box"] = "boxed"
-    if cfg["jac"] == "cs":
-        spec["family"] = choice(rng, ["qp", "quartic", "rosen", "styblinski"])
-        if spec["family"] == "rosen":
-            spec["n"] = max(2, min(spec["n"], 8))
     cfg["ftol"] = float(choice(rng, [0.0, 0.0, 1e-12]))
     cfg["gtol"] = float(choice(rng, [0.0, 1e-10]))
     K = int(rng.integers(2, 10)) if tier == "quick" else int(rng.integers(2, 22))
